@@ -20,8 +20,9 @@ class Model:
     def __init__(self, n):
         names = ["a", "b", "a"][:n]
         self.cols = {"name": list(names), "x": [1.5 * (i + 1) for i in range(n)], "y": [i + 1 for i in range(n)],
-                     "o": [OBJS[i] for i in range(n)], "m": [[1.0 * i, i + 0.5] for i in range(n)]}
-        self.order = ["name", "x", "y", "o", "m"]
+                     "o": [OBJS[i] for i in range(n)], "m": [[1.0 * i, i + 0.5] for i in range(n)],
+                     "sign": [(-1.0) ** i * (i + 1) for i in range(n)]}       # a column named like a numpy ufunc
+        self.order = ["name", "x", "y", "o", "m", "sign"]
         self.index = "name"
         self.scalars = {"q": SCALAR}
 
@@ -51,14 +52,14 @@ def cell(v):
 ROWSELS = [("slice", 1, None, None), ("slice", None, None, 2), ("slice", None, None, -1), ("slice", 0, 0, None),
            ("list", (0,)), ("list", (1, 0)), ("list", ()), ("maskall",), ("maskalt",), ("regex", "a.*"), ("regex", "zz"),
            ("int", 0), ("head", 1), ("tail", 2), ("neg",)]
-COLSELS = ["x", "x y", ["y"], "x+y", "x+2*y", "o", ["x", "x*x"], "m y"]
+COLSELS = ["x", "x y", ["y"], "x+y", "x+2*y", "o", ["x", "x*x"], "m y", "sign*2", ["sign", "x*sign"]]
 
 
 def universe():
     ops = [("rows",) + r for r in ROWSELS]
     ops += [("cols", c) for c in COLSELS]
     ops += [("add",), ("mul", 1), ("mul", 2), ("concat",), ("copy",), ("t",),
-            ("setcol", "x", "double"), ("setcol", "y", "const"), ("newcol", "z"), ("setscalar",), ("setcell", "x")]
+            ("setcol", "x", "double"), ("setcol", "y", "const"), ("newcol", "z"), ("setscalar",), ("setcell", "x"), ("peek",)]
     return ops
 
 
@@ -67,7 +68,7 @@ def expr_cols(spec):
 
 
 def needs(expr):
-    return [c for c in ("x", "y", "o", "z", "m") if c in expr.replace("zz", "")]
+    return [c for c in ("x", "y", "o", "z", "m", "sign") if c in expr.replace("zz", "")]
 
 
 class System(simple.SimpleSystem):
@@ -87,8 +88,9 @@ class System(simple.SimpleSystem):
         for i, v in enumerate(m.cols["o"]):
             o[i] = v
         data = {"name": np.array(m.cols["name"], dtype=object), "x": np.array(m.cols["x"], dtype=float),
-                "y": np.array(m.cols["y"], dtype=int), "o": o, "m": np.array(m.cols["m"], dtype=float).reshape(m.n(), 2), "q": SCALAR}
-        t = Table(data, col_names=["name", "x", "y", "o", "m"])
+                "y": np.array(m.cols["y"], dtype=int), "o": o, "m": np.array(m.cols["m"], dtype=float).reshape(m.n(), 2),
+                "sign": np.array(m.cols["sign"], dtype=float), "q": SCALAR}
+        t = Table(data, col_names=["name", "x", "y", "o", "m", "sign"])
         return {"t": t, "m": m, "src": None, "anc": []}
 
     def enabled(self, live, hist):
@@ -239,6 +241,9 @@ class System(simple.SimpleSystem):
             t["q2"] = 8.25
             if m.scalars is not None:
                 m.scalars["q2"] = 8.25
+        elif k == "peek":
+            # derive from the current table WITHOUT continuing on the result (the current table stays the subject)
+            live["peeked"] = [t.rows[0:1], t.cols[m.order[-1]] if m.order else None, t.rows[[]]]
         else:
             raise ValueError(op)
         if derived is not None:
@@ -251,11 +256,27 @@ class System(simple.SimpleSystem):
         return None
 
     def canon(self, live):
+        """every attribute of the current table (data, column list, index and anything a change to the library may add, e.g. a
+        cache), so that histories are never merged while such state differs"""
         t = live["t"]
-        return simple.digest((t._index, list(t._col_names),
-                              [(c, getattr(t._data[c], "dtype", None) and t._data[c].dtype.kind, [cell(x) for x in t._data[c]])
-                               if hasattr(t._data[c], "__len__") and not isinstance(t._data[c], str) else (c, cell(t._data[c]))
-                               for c in sorted(t._data, key=str)]))
+        data = []
+        for c in sorted(t._data, key=str):
+            v = t._data[c]
+            if hasattr(v, "__len__") and not isinstance(v, str):
+                data.append((str(c), getattr(v, "dtype", None) is not None and v.dtype.kind, [cell(x) for x in v]))
+            else:
+                data.append((str(c), cell(v)))
+        extra = []
+        for k in sorted(t.__dict__):
+            if k in ("rows", "cols", "_data", "_col_names"):
+                continue
+            v = t.__dict__[k]
+            if isinstance(v, dict):
+                v = sorted((repr(x), repr(y)) for x, y in v.items())
+            elif isinstance(v, (set, frozenset)):
+                v = sorted(map(repr, v))
+            extra.append((k, repr(v)))
+        return simple.digest((list(t._col_names), data, extra))
 
     def op_str(self, op):
         k = op[0]
@@ -294,6 +315,8 @@ class System(simple.SimpleSystem):
             return f"t[{op[1]!r}] = np.arange(len(t)) * 1.0"
         if k == "setscalar":
             return "t['q2'] = 8.25"
+        if k == "peek":
+            return "t.rows[0:1]; t.cols[<last column>]; t.rows[[]]   # derived tables looked at and dropped"
         return repr(op)
 
     # ------------------------------------------------------------------
@@ -339,6 +362,18 @@ class System(simple.SimpleSystem):
                 return issues
         if m.index != t._index:
             issues.append(self.issue(hist, op, f"index column is {t._index!r}, expected {m.index!r}"))
+        for d in live.pop("peeked", None) or ():
+            if d is None:
+                continue
+            pr = rect_problems(d)
+            if pr:
+                issues.append(self.issue(hist, op, "a table derived from the current one is not rectangular: " + pr[0]))
+                return issues
+            if m.scalars is not None:
+                for kk, vv in m.scalars.items():
+                    if kk not in d or kk in d._col_names or d[kk] != vv:
+                        issues.append(self.issue(hist, op, f"scalar entry {kk!r} was not carried over to a table derived from the current one"))
+                        return issues
         if m.scalars is not None and op[0] in ("rows", "cols", "copy", "mul", "add", "setscalar"):
             for kk, vv in m.scalars.items():
                 if kk not in t or kk in t._col_names or t[kk] != vv:
@@ -353,7 +388,11 @@ class System(simple.SimpleSystem):
         issues = []
         if "x" in m.cols and "y" in m.cols and all(isinstance(v, (int, float)) for v in m.cols["x"] + m.cols["y"]):
             x, y = np.array(m.cols["x"], dtype=float), np.array(m.cols["y"])
-            for e, want in (("x+2*y", x + 2 * y), ("x*y-1", x * y - 1), ("sqrt(x*x)", np.sqrt(x * x))):
+            exprs = [("x+2*y", x + 2 * y), ("x*y-1", x * y - 1), ("sqrt(x*x)", np.sqrt(x * x))]
+            if "sign" in m.cols and all(isinstance(v, (int, float)) for v in m.cols["sign"]):
+                sg = np.array(m.cols["sign"], dtype=float)
+                exprs += [("sign*x", sg * x), ("abs(sign)+y", np.abs(sg) + y)]
+            for e, want in exprs:
                 got = t[e]
                 if len(got) != len(want) or not np.array_equal(np.asarray(got, dtype=float), want):
                     issues.append(self.issue(hist, op, f"t[{e!r}] = {list(got)!r}, element-wise value is {list(want)!r}"))
@@ -404,8 +443,57 @@ def snapshot(t):
              for c in sorted(t._data, key=str)])
 
 
+def constructor_cases():
+    """every pair of column dtypes x lengths (n, n+1, n-1) handed to the checked constructor: a ragged input must be rejected with
+    ValueError (or whatever is built must be rectangular); a well-formed input must be accepted"""
+    import numpy as np
+    mk = {"f": lambda k: np.arange(k) * 1.5, "i": lambda k: np.arange(k), "U": lambda k: np.array([f"s{j}" for j in range(k)], dtype="U4") if k else np.array([], dtype="U4"),
+          "S": lambda k: np.array([b"b"] * k, dtype="S2"), "O": lambda k: np.array([None] * k, dtype=object)}
+    for n in (0, 1, 2, 3):
+        for d1 in mk:
+            for d2 in mk:
+                for d3 in mk:
+                    for dl2, dl3 in ((0, 0), (1, 0), (0, 1), (1, 1), (-1, 0), (0, -1)):
+                        l2, l3 = n + dl2, n + dl3
+                        if l2 < 0 or l3 < 0:
+                            continue
+                        yield n, (d1, d2, d3), (n, l2, l3), {"name": mk["U"](n) if d1 == "U" else mk[d1](n), "a": mk[d2](l2), "b": mk[d3](l3)}
+
+
+def run_constructor(job):
+    import time
+    from xdeps import Table
+    t0 = time.time()
+    ev = 0
+    issues = []
+    accepted = rejected = 0
+    for n, dts, lens, data in constructor_cases():
+        ev += 1
+        ragged = len(set(lens)) > 1
+        what = None
+        try:
+            t = Table(dict(data))
+            accepted += 1
+            pr = rect_problems(t)
+            if pr:
+                what = f"the constructor accepted columns of lengths {lens} (dtypes {dts}) and built a table that is not rectangular: {pr[0]}"
+            elif ragged:
+                what = f"the constructor accepted columns of different lengths {lens} (dtypes {dts})"
+        except ValueError:
+            rejected += 1
+            if not ragged:
+                what = f"the constructor rejected well-formed columns of lengths {lens} (dtypes {dts})"
+        except Exception as e:  # noqa
+            what = f"the constructor raised {type(e).__name__} for lengths {lens} (dtypes {dts}): {e}"
+        if what and len(issues) < 20:
+            issues.append({"kind": "violation", "property": "C14", "finding": None, "what": what, "config": {},
+                           "program": [f"Table({{'name': <{dts[0]} x {lens[0]}>, 'a': <{dts[1]} x {lens[1]}>, 'b': <{dts[2]} x {lens[2]}>}})"],
+                           "case": {"constructor": [list(dts), list(lens)]}})
+    return {"kind": "constructor", "evaluations": ev, "accepted": accepted, "rejected": rejected, "issues": issues, "wall_s": time.time() - t0}
+
+
 def plan(tier, seed):
-    jobs = []
+    jobs = [{"name": "constructor", "mode": "pure", "hashseed": seed % 2 ** 32, "nproc": 1, "timeout": 1200, "args": {"what": "constructor"}}]
     depth = 4 if tier == "quick" else 5
     for n in (0, 1, 2, 3):
         jobs.append({"name": f"bfs:rows{n}:d{depth}", "mode": "pure", "hashseed": seed % 2 ** 32,
@@ -420,11 +508,17 @@ def plan(tier, seed):
 
 def run_job(job):
     a = job["args"]
+    if a.get("what") == "constructor":
+        return run_constructor(job)
     return common.run_bfs(System(a["nrows"], common.config_info(job)), job)
 
 
 def finish(plan_, results):
     cov, issues = common.merge_bfs(results)
+    for r in results:
+        if r.get("kind") == "constructor":
+            cov["constructor_inputs"] = {"cases": r["evaluations"], "accepted": r["accepted"], "rejected_with_ValueError": r["rejected"]}
+            issues.extend(r["issues"])
     cov["samples"] = [{"history": it["program"], "what": it["what"]} for it in issues[:3]] or [
         {"history": ["t = t.rows[1::]", "t = t.cols['x+2*y']", "t = t + t", "t = t._t"],
          "checked": "rectangular; source snapshot unchanged; contents equal the list model"}]
@@ -432,6 +526,10 @@ def finish(plan_, results):
 
 
 def replay(issue):
+    if "constructor" in issue.get("case", {}):
+        r = run_constructor({})
+        bad = [i for i in r["issues"] if i["case"] == issue["case"]]
+        return {"still_fails": bool(bad), "what": bad[0]["what"] if bad else "ok"}
     ops = [ast.literal_eval(s) for s in issue["ops"]]
     n = int(issue["case"]["system"].split(":")[1])
     s = System(n, issue.get("config"))
